@@ -64,6 +64,7 @@ def run(ctx):
     ctx.guard(rule_c, ctx, ix)
     ctx.guard(rule_d, ctx, ix)
     ctx.guard(rule_e, ctx, ix)
+    ctx.guard(rule_f, ctx, ix)
 
 
 def _reaches(ix, cls, handler_src, target, depth=0):
@@ -316,3 +317,83 @@ def rule_e(ctx, ix):
     ok = any(unparse(c.func) == '%s.remove' % p.self_name for c in calls_in(p.node))
     ctx.ob(R, p.construct, 'pop removes through remove() (which notifies)', ok,
            detail='LayerArtistContainer.pop no longer removes the artists through remove()', where=p.where)
+
+
+def _conj_atoms(test):
+    """Atoms that certainly hold when ``test`` is true (conjuncts only)."""
+    if isinstance(test, ast.BoolOp) and isinstance(test.op, ast.And):
+        out = []
+        for v in test.values:
+            out.extend(_conj_atoms(v))
+        return out
+    return [unparse(test).replace(' ', '')]
+
+
+def rule_f(ctx, ix):
+    """Every category of attributes is offered by the attribute picker only under its kind flag(s)."""
+    from ..util import guard_chain, parent_map
+    R = 'C18.f'
+    ctx.describe(R, 'the attribute picker adds each category of attributes only under its kind filter', floor=4)
+    cls = ix.cls('glue.core.data_combo_helper.ComponentIDComboHelper')
+    f = cls.resolve_func('refresh')
+    if f is None:
+        raise AnalysisError('ComponentIDComboHelper.refresh vanished')
+    s = f.self_name
+    pm = parent_map(f.node)
+    # main components: (kind == K and self.<flag of K>) or ...
+    loops = [n for n in walk_no_nested(f.node) if isinstance(n, ast.For) and unparse(n.iter).endswith('.main_components')]
+    if len(loops) != 1:
+        raise AnalysisError('ComponentIDComboHelper.refresh: loop over the main components not recognised')
+    lp = loops[0]
+    tests = [n for n in lp.body if isinstance(n, ast.If) and any(call_name(c) == 'append' for c in calls_in(n))]
+    bare = [n for n in lp.body if not isinstance(n, ast.If) and any(call_name(c) in ('append', 'extend') for c in calls_in(n))]
+    want = {('numerical', 'numeric'), ('datetime', 'datetime'), ('categorical', 'categorical')}
+    got, parsed = set(), bool(tests) and not bare
+    for t in tests:
+        alts = t.test.values if isinstance(t.test, ast.BoolOp) and isinstance(t.test.op, ast.Or) else [t.test]
+        for a in alts:
+            atoms = _conj_atoms(a)
+            kinds = [x for x in atoms if 'get_kind(' in x and "==" in x]
+            flags = [x[len(s) + 1:] for x in atoms if x.startswith(s + '.') and x[len(s) + 1:].isidentifier()]
+            if len(kinds) != 1:
+                parsed = False
+                continue
+            k = kinds[0].split('==')[1].strip('\'"')
+            for fl in flags or [None]:
+                got.add((k, fl))
+    bad = sorted(p for p in got if p not in want)
+    missing = sorted(p for p in want if p not in got)
+    ctx.idiom(R, f.construct + ' main', 'a main attribute is offered only when the flag of its own kind is set',
+              accepted=parsed and got == want,
+              absent=bool(bare) or (parsed and bool(bad or missing)) or not tests,
+              detail_absent='ComponentIDComboHelper.refresh offers main attributes under %s (expected each kind under its own flag: %s): '
+                            'the picker shows attributes that do not match its kind filters, or hides ones that do'
+                            % (sorted(got) if tests and not bare else 'no kind test', sorted(want)),
+              shape=unparse(tests[0].test) if tests else '', where=where(f, lp))
+    # the other categories
+    rows = [('derived_components', {'numeric', 'derived'}, 'derived attributes are numerical: they are offered only when both numeric and derived are set'),
+            ('pixel_component_ids', {'pixel_coord'}, 'pixel attributes are offered only when pixel_coord is set'),
+            ('world_component_ids', {'world_coord'}, 'world attributes are offered only when world_coord is set')]
+    for src, need, what in rows:
+        uses = []
+        for n in walk_no_nested(f.node):
+            if isinstance(n, ast.For) and (unparse(n.iter) == src or unparse(n.iter).endswith('.' + src)) and \
+                    any(call_name(c) in ('append', 'extend') for c in calls_in(n)):
+                uses.append(n)
+            elif isinstance(n, ast.AugAssign) and (unparse(n.value) == src or unparse(n.value).endswith('.' + src)):
+                uses.append(n)
+            elif isinstance(n, ast.Call) and call_name(n) in ('extend',) and n.args and \
+                    (unparse(n.args[0]) == src or unparse(n.args[0]).endswith('.' + src)):
+                uses.append(n)
+        if not uses:
+            raise AnalysisError('ComponentIDComboHelper.refresh: no use of %s recognised' % src)
+        for u in uses:
+            have = set()
+            for g, br in guard_chain(pm, u, f.node):
+                if isinstance(g, ast.If) and br == 'body':
+                    for a in _conj_atoms(g.test):
+                        if a.startswith(s + '.'):
+                            have.add(a[len(s) + 1:])
+            ctx.ob(R, '%s %s' % (f.construct, src), what, need <= have,
+                   detail='ComponentIDComboHelper.refresh adds %s under the flags %s only (needs %s): a picker whose filter excludes '
+                          'them still offers these attributes' % (src, sorted(have), sorted(need)), where=where(f, u))
